@@ -2,7 +2,7 @@
 # tools/try_patch.sh <patch.diff> <PROPERTY> [tier] [timeout_s]
 # Applies a patch to /repo, runs one check, ALWAYS restores /repo. Prints the verdict line.
 # Uses a separate evidence/replay root so committed evidence is not overwritten.
-P="$1"; ID="$2"; TIER="${3:-quick}"; TMO="${4:-600}"
+P="$(realpath "$1")"; ID="$2"; TIER="${3:-quick}"; TMO="${4:-600}"
 ROOT="$(cd "$(dirname "${BASH_SOURCE[0]}")/.." && pwd)"
 if [ -n "$(git -C /repo status --porcelain)" ]; then echo "repo not clean"; exit 3; fi
 trap 'git -C /repo checkout -- . 2>/dev/null' EXIT
